@@ -44,8 +44,8 @@ def run(ctx, chk):
         chk.missing('C15.N3', 'thread manager (daemon function spawning the workers) / per-thread context type with a notifying Drop')
         return
     chk.saw(tmb)
-    ids = common_variant_names(fb, 'clock_bound_d::ChannelId')
-    msgs = common_variant_names(fb, 'clock_bound_d::Message')
+    ids = common_variant_names(fb, '::ChannelId')
+    msgs = common_variant_names(fb, '::Message')
 
     # ------------------------------------------------------------ N1 Drop for Context
     drop_targets = []
@@ -291,7 +291,7 @@ def run(ctx, chk):
                     arg = ('ref', (('H', 900 + vi), ()))
                     e3 = common.mk_engine(fb)
                     for q in e3.run(fbod, args=[flt, ('ref', (('H', 800 + vi), ()))],
-                                    store={(('H', 800 + vi), ()): arg, (('H', 900 + vi), ()): ('agg', 'clock_bound_d::ChannelId', vn, ())}):
+                                    store={(('H', 800 + vi), ()): arg, (('H', 900 + vi), ()): ('agg', _ENUM_KEY.get('::ChannelId', 'clock_bound_d::ChannelId'), vn, ())}):
                         if q.kind == 'return':
                             keep[vn] = q.value
             res = {}
@@ -462,10 +462,14 @@ def dispatch_box_is_plain_clone(eng, p, dbox, mbox):
     return True, 'dispatch box = clone of the web created by %s' % sorted(web)
 
 
+_ENUM_KEY = {}
+
+
 def common_variant_names(fb, suffix):
     for c in fb.crates:
         for k, a in c.adts.items():
-            if k == suffix and a['kind'] == 'enum':
+            if k.startswith('clock_bound_d::') and k.endswith(suffix) and a['kind'] == 'enum':
+                _ENUM_KEY[suffix] = k
                 return {v.get('discr', v['index']): v['name'] for v in a['variants']}
     return {}
 
@@ -576,11 +580,13 @@ def abort_and_blocking(fb, chk, cid, holder, msgs):
             chk.ob('C15.N5', 'abort:leaves-loop:%s' % cid, False, p.where[2], 'ThreadAbort path ends as %s' % p.kind)
             continue
         # continue from the loop head with this path's state of the holder frame
-        fr = p.state.frames[0]
-        store = {k: v for k, v in p.state.store.items() if k[0][0] == 'L' and k[0][1] == fr.fid}
-        store = {((('L', 0, k[0][2])), k[1]): v for k, v in store.items()}
-        args = [p.state.store.get((('L', fr.fid, i), ())) for i in range(1, holder.argc + 1)]
-        cont = [q for q in common.mk_engine(fb).run(holder, args=args, start_bb=fr.bb, store=store) if q.kind != 'unreachable']
+        # (the frame that holds the loop: the holder itself, or a helper it called with the Context borrowed)
+        fr = p.state.frames[-1]
+        lb = fr.body
+        store = {k: v for k, v in p.state.store.items() if not (k[0][0] == 'L' and k[0][1] != fr.fid)}
+        store = {(((('L', 0, k[0][2])), k[1]) if k[0][0] == 'L' else k): v for k, v in store.items()}
+        args = [p.state.store.get((('L', fr.fid, i), ())) for i in range(1, lb.argc + 1)]
+        cont = [q for q in common.mk_engine(fb).run(lb, args=args, start_bb=fr.bb, store=store) if q.kind != 'unreachable']
         ok = bool(cont)
         detail = []
         for q in cont:
